@@ -95,10 +95,12 @@ type coordSim struct {
 	buf   map[string][]bufLine
 	pviol []pendViol
 	// ground truth used for known-finding keys and tail exclusions
-	layoutPanic  bool
-	operatorCmds int
-	inTail       bool
-	tailStart    time.Time
+	layoutPanic   bool
+	replicaBefore map[string][]int // replication factors a namespace had before operator changes
+	lastNS        string           // namespace of the coordinator's most recent register call / data-node query
+	operatorCmds  int
+	inTail        bool
+	tailStart     time.Time
 
 	pd       *pdnode_coord.PDCoordinator
 	isLeader bool
@@ -382,7 +384,18 @@ func (s *coordSim) checkWriteLocked(p *part, nv *cluster.PartitionReplicaInfo, o
 		seen[n] = true
 	}
 	if !(2*len(isr) > replica) {
-		s.violLocked("isr-majority", "", "%d remaining replicas are not a strict majority of replication factor %d: %s", len(isr), replica, where)
+		// ground truth of a known finding: the operator raised the replication
+		// factor during this run and the version satisfies the rule for the
+		// factor that was configured before (the coordinator works a whole check
+		// round on the namespace meta it read at the start of the round; the CAS
+		// covers only the partition's replica entry)
+		key := ""
+		for _, r0 := range s.replicaBefore[p.ns] {
+			if r0 < replica && 2*len(isr) > r0 {
+				key = "isr-minority-replication-factor-raised-meanwhile"
+			}
+		}
+		s.violLocked("isr-majority", key, "%d remaining replicas are not a strict majority of replication factor %d: %s", len(isr), replica, where)
 	}
 	// (3) replacements one at a time, only when the current replicas report in sync
 	if prev != nil {
@@ -479,11 +492,15 @@ func sortedRemKeys(m map[string]cluster.RemovingInfo) []string {
 // wouldLayoutPanic is called (without s.mu held) when the placement driver is
 // about to compute a layout (its getCurrentPartitionNodes reads the register
 // immediately before): the real layout function is evaluated on the same
-// inputs - register content and the coordinator's own view of the data nodes -
-// under recover. A panic there would kill the placement driver process (and
+// inputs - register content of the namespace the coordinator is working on
+// and the coordinator's own view of the data nodes - under recover. The
+// namespace is the one named in the coordinator's most recent register call or
+// data-node query (every layout computation is preceded, without a blocking
+// point in between, by such a call for its namespace); only on the
+// operator-removal path, where that does not hold, all namespaces are tried. A panic there would kill the placement driver process (and
 // this worker); it is recorded as a violation and the caller makes the read
 // fail so that the coordinator skips the computation.
-func (s *coordSim) wouldLayoutPanic() bool {
+func (s *coordSim) wouldLayoutPanic(only string) bool {
 	type in struct {
 		ns             string
 		parts, replica int
@@ -493,6 +510,9 @@ func (s *coordSim) wouldLayoutPanic() bool {
 	var ins []in
 	s.mu.Lock()
 	for _, ns := range s.nsOrder {
+		if only != "" && ns != only {
+			continue
+		}
 		m := s.metas[ns]
 		x := in{ns: ns, parts: m.PartitionNum, replica: m.Replica}
 		for pid, p := range s.parts[ns] {
@@ -607,6 +627,7 @@ func (s *coordSim) api(method string, endpoint string, body io.Reader, timeout t
 
 	s.mu.Lock()
 	s.seq++
+	s.lastNS = ns
 	now := time.Now()
 	d := s.byHost[host]
 	p := s.partLocked(ns, pid)
@@ -626,6 +647,9 @@ func (s *coordSim) api(method string, endpoint string, body io.Reader, timeout t
 		s.mu.Unlock()
 		if slow {
 			time.Sleep(timeout)
+			s.mu.Lock()
+			s.lastNS = ns
+			s.mu.Unlock()
 			return true, 0, errAPITimeout
 		}
 		return true, 0, errAPIRefused
@@ -1132,6 +1156,12 @@ func (s *coordSim) event(kind int) {
 		s.mu.Unlock()
 		if ns != "" && nr >= 1 && nr <= 5 {
 			s.operatorCmds++
+			s.mu.Lock()
+			if s.replicaBefore == nil {
+				s.replicaBefore = map[string][]int{}
+			}
+			s.replicaBefore[ns] = append(s.replicaBefore[ns], s.metas[ns].Replica)
+			s.mu.Unlock()
 			err := s.pd.ChangeNamespaceMetaParam(ns, nr, "", 0)
 			c.Log("replicachange", "%s -> %d: %v", ns, nr, err)
 		}
